@@ -239,8 +239,14 @@ DATAPLANE = {"C01", "C02", "C03", "C04", "C05", "C06", "C07", "C08", "C09", "C10
 def run_property(prop, tier, seed, replay, extra):
     try:
         if prop in DATAPLANE:
-            work, binary, _ = prepare_dataplane(prop)
-            return run_vmon(prop, binary, tier, seed, replay, extra, work)
+            work, binary, ov = prepare_dataplane(prop)
+            env_extra = None
+            if prop == "C20" and tier == "thorough" and not replay:
+                # coverage-guided native fuzz target (harness/fuzz), run by the monitor itself
+                fz = os.path.join(work, "bin", "fuzzc20.test")
+                build_binary(work, ov, "./zzverif/fuzz", fz, test=True, extra=["-fuzz=^FuzzC20$"])
+                env_extra = {"VERIF_FUZZ_BIN": fz}
+            return run_vmon(prop, binary, tier, seed, replay, extra, work, env_extra=env_extra)
         if prop == "C21":
             import race
             return race.run(tier, seed, replay, extra)
